@@ -113,8 +113,8 @@ def r1_gate_chain(ctx):
 def r2_reward_bound(ctx):
     r = ctx.rule("R2", "check_dosc_total_output: ERG output > reward_nom ⇒ Err; reward_nom = CoinValue(dosc_to_erg(height, calculate_reward(speed, history[height−1].dosc_speed, difficulty, tip910)))")
     c = ctx.body("melstf::state::applytx::check_dosc_total_output", r)
-    atoms = q.cmp_atoms(c)
     want = "Lt($2, Option::unwrap_or(HashMap::get(Transaction::total_outputs($1), Denom::Erg{}), 0))"
+    atoms = q.pick_atoms(c, lambda c_: c_ == want)        # `out > nom ⇒ Err` or `out <= nom ⇒ Ok`
     r.check([a[1] for a in atoms] == [want], "atom", "compares total ERG output with the nominal reward", "comparisons: %s" % [a[1] for a in atoms])
     oks = [bb for bb, e in q.result_blocks(c)["Ok"]]
     if atoms:
